@@ -15,3 +15,6 @@ Proof. vm_compute. reflexivity. Qed.
 (* no module-level state besides the whitelisted constants (in particular no global random state) *)
 Theorem C09_module_state_ok : forallb module_state_ok module_state = true.
 Proof. vm_compute. reflexivity. Qed.
+(* the handlers that are there to swallow (display lookups, condition estimate, failed trial steps) never re-raise *)
+Theorem C09_swallowing_handlers_swallow : forallb (handler_swallows handler_bodies) swallowing_handlers = true.
+Proof. vm_compute. reflexivity. Qed.
